@@ -8,6 +8,7 @@ from .qc import torch
 
 FILES = ["qucumber/nn_states/neural_state.py", "qucumber/utils/gradients_utils.py", "qucumber/nn_states/positive_wavefunction.py",
          "qucumber/nn_states/complex_wavefunction.py", "qucumber/nn_states/density_matrix.py"]
+REQUIRED_THEOREMS = ['C06_batch_grad', 'C06_batch_grad_prbm', 'C06_phase_gets_positive_phase_only', 'C06_slices', 'C06_lands_on_parameter', 'C06_lands_on_parameter_prbm', 'C06_sgd_step', 'C06_run_unfold']
 RULE = ("case = a real fit() run (state kind, n, h[, a], data with repeats and per-row bases, pos/neg batch sizes equal or different, dividing N or not, "
         "k in 0..3, learning rate, 1-3 epochs) observed through a recording optimizer passed via optimizer=, compute_batch_gradients and "
         "rbm_am.gibbs_steps wrapped on the instance, a counting scheduler; every batch of every epoch is one observation: .grad per parameter, "
